@@ -274,7 +274,7 @@ def enc_ability_record(a, with_bitmap: bool = True) -> bytes:
 
 def dec_names(payload: bytes):
     if len(payload) % 9:
-        return {"kind": UNDEF, "why": "names length"}
+        return {"kind": UNDEF, "why": "names length", "structural": "names"}
     names = {}
     for i in range(len(payload) // 9):
         r = payload[9 * i : 9 * i + 9]
